@@ -1,5 +1,8 @@
 pub mod c01;
 pub mod c02;
+pub mod c03;
+pub mod c04;
+pub mod c13;
 
 use crate::gen::Excl;
 use crate::report::{self, RunCtx};
@@ -9,6 +12,9 @@ pub fn run(ctx: &mut RunCtx) -> i32 {
     match ctx.property.as_str() {
         "C01" => c01::run(ctx),
         "C02" => c02::run(ctx),
+        "C13" => c13::run(ctx),
+        "C04" => c04::run(ctx),
+        "C03" => c03::run(ctx),
         other => {
             ctx.say(&format!("unknown property {}", other));
             2
@@ -22,6 +28,9 @@ pub fn replay_fails(v: &Value) -> Option<(bool, String)> {
     match v.get("kind").and_then(|k| k.as_str()).unwrap_or("") {
         "sem-refc" => c01::replay_case(v),
         "sem-opt" => c02::replay_case(v),
+        "c13" => c13::replay_case(v),
+        "c04" => c04::replay_case(v),
+        "c03-skeleton" | "c03-program" => c03::replay_case(v),
         _ => None,
     }
 }
